@@ -22,7 +22,8 @@ EXPLANATION = (
   "pass handles, never from its runtime value (R6); the astroid inference tips registered while a "
   "formula is re-parsed are always unregistered again: either the context manager restores the "
   "registry in a finally, or no parse error can escape its with-block (the handler sits inside) "
-  "(R7). Not decided: semantic equivalence of valid formulas beyond these "
+  "(R7); the match that bounds each `$` -> `rec.` patch is anchored at the mapped-back position of "
+  "the DOLLAR-prefixed Name, not searched forward from it (R8). Not decided: semantic equivalence of valid formulas beyond these "
   "translation steps.")
 
 CB = "codebuilder._do_make_formula_body"
